@@ -104,7 +104,7 @@ def load_known():
 
 
 def write_replay(prop, v, meta):
-    d = os.path.join(VERIF, "evidence", "replay")
+    d = os.path.join(os.environ.get("CIRC_EVIDENCE_DIR") or os.path.join(VERIF, "evidence"), "replay")
     os.makedirs(d, exist_ok=True)
     h = hashlib.sha1(v.key.encode()).hexdigest()[:12]
     path = os.path.join(d, "%s-%s.json" % (prop, h))
@@ -188,7 +188,8 @@ def finish(prop, level, tier, results, meta, t0, extra_cov=None, assumptions=Non
         "wall_s": round(time.time() - t0, 2),
         "violations": len(new),
     }
-    os.makedirs(os.path.join(VERIF, "evidence"), exist_ok=True)
-    with open(os.path.join(VERIF, "evidence", "%s.json" % prop), "w") as f:
+    evdir = os.environ.get("CIRC_EVIDENCE_DIR") or os.path.join(VERIF, "evidence")
+    os.makedirs(evdir, exist_ok=True)
+    with open(os.path.join(evdir, "%s.json" % prop), "w") as f:
         json.dump(ev, f, indent=1, default=str)
     return 1 if new else 0
